@@ -64,6 +64,13 @@ def main(argv, tier):
     if "--inplace" in argv:
         argv.remove("--inplace")
         inplace = True
+    global SEEDED
+    benign = False
+    if "--benign" in argv:
+        # property-PRESERVING refactorings (/verif/benign/<name>/patch.diff): every check must stay silent
+        argv.remove("--benign")
+        benign = True
+        SEEDED = os.path.join(VERIF, "benign")
     target_only = False
     if "--target-only" in argv:
         argv.remove("--target-only")
@@ -103,7 +110,10 @@ def main(argv, tier):
                 results[name] = entry
             with open(results_path, "w") as f:
                 json.dump(results, f, indent=1, sort_keys=True)
-        flag = "CAUGHT" if caught else "MISSED"
+        if benign:
+            flag = "FALSE-ALARM" if caught else "SILENT (as it must be)"
+        else:
+            flag = "CAUGHT" if caught else "MISSED"
         print(f"{name}: {flag} target={target} caught_by={caught} machinery={broken}", flush=True)
 
     if inplace:
